@@ -476,6 +476,16 @@ func valCanon(b *strings.Builder, v reflect.Value, depth int) {
 			b.WriteString(e.k + ":" + e.v)
 		}
 		b.WriteByte('}')
+	case reflect.Struct:
+		b.WriteString("struct{")
+		for i := 0; i < v.NumField(); i++ {
+			if i > 0 {
+				b.WriteByte(',')
+			}
+			b.WriteString(v.Type().Field(i).Name + ":")
+			valCanon(b, v.Field(i), depth+1)
+		}
+		b.WriteByte('}')
 	default:
 		b.WriteString("?" + CanonValue(v))
 	}
